@@ -3,6 +3,7 @@ package checks
 import (
 	"encoding/json"
 	"fmt"
+	"io"
 	"os"
 	"path/filepath"
 	"runtime"
@@ -235,6 +236,7 @@ type c12StepID struct {
 }
 
 type c12Case struct {
+	Reuse bool        `json:"reuse,omitempty"` // observed run = second Execute on an Interpreter whose first run had the opposite restrictions
 	Steps []c12StepID `json:"steps"`
 	Flags int         `json:"flags"` // 1 NoExec, 2 NoFileWrites, 4 NoFileReads
 	Wrap  bool        `json:"custom_openfile"`
@@ -655,7 +657,37 @@ func c12InterpFrames() []string {
 }
 
 func (e *c12Env) run(prog *parser.Program, b c12Built, flags int, wrap bool) c12Obs {
+	return e.runReuse(prog, b, flags, wrap, false)
+}
+
+// runReuse: with reuse set, the observed run is the SECOND Execute on one
+// Interpreter whose first Execute ran the same program with the opposite
+// restrictions (none if this run has some, all three if this run has none):
+// the flags are per run, not per Interpreter.
+func (e *c12Env) runReuse(prog *parser.Program, b c12Built, flags int, wrap bool, reuse bool) c12Obs {
 	e.reset()
+	var ip *interp.Interpreter
+	if reuse {
+		var err error
+		ip, err = interp.New(prog)
+		if err != nil {
+			panic(err)
+		}
+		prior := 0
+		if flags == 0 {
+			prior = 7
+		}
+		func() {
+			defer func() { recover() }() // a panic here is reported by the fresh runs of the same program
+			ip.Execute(&interp.Config{Stdin: strings.NewReader(c12Line), Output: io.Discard, Error: io.Discard, Args: b.Args, Vars: []string{"FS", ","}, Environ: []string{},
+				NoExec: prior&c12NoExec != 0, NoFileWrites: prior&c12NoWrites != 0, NoFileReads: prior&c12NoReads != 0})
+		}()
+		ip.ResetVars() // variables legitimately carry over between runs; the restrictions must not
+		e.dirty = true // the first run was free to write
+		e.reset()
+		awk.ExecHook = func(_ *parser.Program, cfg *interp.Config) (int, error) { return ip.Execute(cfg) }
+		defer func() { awk.ExecHook = nil }()
+	}
 	var o c12Obs
 	vexp.SetStartFn(func(path string, args []string) {
 		o.Starts = append(o.Starts, path+" "+strings.Join(args[1:], " "))
@@ -1084,6 +1116,19 @@ func c12Program(c *core.Ctx, e *c12Env, steps []c12StepID, only *c12Case, count 
 			}
 			if o.HasErr {
 				c.Add("runs_ended_by_refusal", 1)
+			}
+			// the same case as the second run of a reused Interpreter (single-step programs)
+			if len(steps) == 1 && !cs.Wrap {
+				rcs := cs
+				rcs.Reuse = true
+				if only == nil || only.Reuse {
+					ro := e.runReuse(prog, b, flags, false, true)
+					c.Eval(2)
+					c.Add("transitions", 1)
+					c.Add("reused_interpreter_runs", 1)
+					c.Outcome(c12OutcomeKey(rcs, ro))
+					c12Judge(c, rcs, b, ro)
+				}
 			}
 		}
 	}
